@@ -1,5 +1,6 @@
 """C03, C04, C06 (and the end-to-end part of C07): spec/Operator bound to the real ShellOperator by step-by-step
 replay of TLC behaviours (gated queue workers, blocking hook processes, fake cluster)."""
+import ast
 import glob
 import json
 import os
@@ -46,10 +47,12 @@ CONSTANTS
   MaxFails = %(fails)d
   FixF8 = %(f8)s
   FixF11 = %(f11)s
+  WithShutdown = %(sd)s
+  ShutdownAfter = 0
 INVARIANTS %(inv)s
 CHECK_DEADLOCK FALSE
 """
-ALL_INV = "TypeOK StartupFirst StartupOrder NoSyncForDisabled SyncInMain NeverDiscardStrict RetrySame"
+ALL_INV = "TypeOK StartupFirst StartupOrder NoSyncForDisabled SyncInMain NeverDiscardStrict RetrySame NoEarlyEventTask NothingHeldBackAfterUnlock"
 SIM_CFG = """SPECIFICATION SimSpec
 CONSTANTS
   Hooks <- Hooks%(cfg)s
@@ -58,30 +61,32 @@ CONSTANTS
   MaxFails = 3
   FixF8 = %(f8)s
   FixF11 = %(f11)s
+  WithShutdown = TRUE
+  ShutdownAfter = %(sdafter)d
 CHECK_DEADLOCK FALSE
 """
 
 
 def model_checks(ctx, mod, quick_cfgs, asis):
     for cfg, ev, ticks, fails in quick_cfgs:
-        r = vlib.tlc(ctx, SPEC, "OpConfigs", MC_CFG % dict(cfg=cfg, ev=ev, ticks=ticks, fails=fails, f8="TRUE", f11="TRUE", inv=ALL_INV),
+        r = vlib.tlc(ctx, SPEC, "OpConfigs", MC_CFG % dict(cfg=cfg, ev=ev, ticks=ticks, fails=fails, f8="TRUE", f11="TRUE", inv=ALL_INV, sd="TRUE" if cfg == "B" else "FALSE"),
                      timeout=900, expect_violation=False, files={"OpConfigs.tla": mod}, workers=8)
         ctx.log("TLC Operator/Hooks%s: %d generated / %d distinct states, %.0fs" % (cfg, r["generated"], r["distinct"], r["wall_s"]))
     for cfg, inv, f8, f11 in asis:
-        vlib.tlc(ctx, SPEC, "OpConfigs", MC_CFG % dict(cfg=cfg, ev=2, ticks=1, fails=2, f8=f8, f11=f11, inv=inv), timeout=300,
+        vlib.tlc(ctx, SPEC, "OpConfigs", MC_CFG % dict(cfg=cfg, ev=2, ticks=1, fails=2, f8=f8, f11=f11, inv=inv, sd="FALSE"), timeout=300,
                  expect_violation=inv, files={"OpConfigs.tla": mod}, workers=4)
 
 
-def gen(ctx, mod, cfg, num, depth, asis=False):
+def gen(ctx, mod, cfg, num, depth, asis=False, sdafter=9999):
     d = os.path.dirname(ctx.path("opbeh", "x"))
-    vlib.tlc(ctx, SPEC, "OpConfigs", SIM_CFG % dict(cfg=cfg, f8="FALSE" if asis else "TRUE", f11="FALSE" if asis else "TRUE"), mode="sim",
+    vlib.tlc(ctx, SPEC, "OpConfigs", SIM_CFG % dict(cfg=cfg, f8="FALSE" if asis else "TRUE", f11="FALSE" if asis else "TRUE", sdafter=sdafter), mode="sim",
              sim_num=num, sim_depth=depth, timeout=600, want_prints=False, files={"OpConfigs.tla": mod}, simfile=os.path.join(d, "b"))
     behs = []
     for f in sorted(glob.glob(os.path.join(d, "b_*"))):
         sts = tlaparse.parse_behaviour_file(f)
         os.unlink(f)
         if len(sts) > 3:
-            behs.append([{k: s[k] for k in ("act", "queues", "run", "backoff", "log")} for s in sts])
+            behs.append([{k: s[k] for k in ("act", "queues", "run", "backoff", "log", "down") if k != "log"} | {"buffered": {"/".join(ast.literal_eval(k)): v for k, v in s["buffered"].items()}, "mstate": {"/".join(ast.literal_eval(k)): v for k, v in s["mstate"].items()}} for s in sts])
     if not behs:
         raise Infra("no behaviours")
     return behs
@@ -129,6 +134,21 @@ def run(ctx, prefixes, what):
                         "queue workers are parked at gate hooks between their steps; gating only adds delay"]
     vlib.finish(ctx, rule="behaviours = TLC simulation of spec/Operator for each hook configuration of configs.json; every step compares all queues, "
                           "the contexts received by the hook process and the task status; distinct = distinct (configuration, action sequence)")
+
+
+def e2e(ctx, prefixes, configs, per, depth=50, sdafter=9999):
+    """operator-level behaviours for the checks of other machines (C01, C02, C17): returns (number of cases, stats)."""
+    mod, cfgs = gen_module(ctx)
+    cases = []
+    for cfg in configs:
+        for b in gen(ctx, mod, cfg, per, depth, sdafter=sdafter):
+            if sdafter < 9999 and not any(s["act"][0] == "Shutdown" for s in b):
+                continue
+            cases.append({"config": cfg, "hooks": cfgs[cfg], "steps": b})
+    if not cases:
+        raise Infra("no operator-level behaviours")
+    stats = replay(ctx, cases, prefixes)
+    return len(cases), stats
 
 
 def check_c03(ctx):
